@@ -64,7 +64,7 @@ PLAN = dict(
              workers=6, timeout_quick=900, timeout_thorough=3600, args=["-coverage", "600"]),
     ],
     drive=[dict(bin="c01", args=["c01"])],
-    tv=[dict(glob="outputs-*.ndjson", module="Trace_Outputs", cfg="Trace_Outputs.cfg", corrupt=["nrows"])],
+    tv=[dict(glob="outputs-*.ndjson", module="Trace_Outputs", cfg="Trace_Outputs.cfg", corrupt=["nrows"], timeout_thorough=3600)],
     extra_steps=[
         nested_selftest("outputs-*.ndjson", "Trace_Outputs", "Trace_Outputs.cfg",
                         [("null_count", _nc), ("child_null_count", _kid_nc), ("short_buffer", _short), ("offsets", _offs), ("key", _key),
